@@ -118,10 +118,10 @@ class ByteArray(SimpleModel):
 
     @classmethod
     def from_base64(cls, value):
-        joiner = type(value)()
         try:
+            joiner = type(value)()
             return (b64decode(joiner.join(value)),)
-        except (TypeError, ValueError):
+        except (TypeError, ValueError, AttributeError):
             # binascii.Error is a ValueError
             raise ValidationError(value)
 
